@@ -127,6 +127,26 @@ def run_random(spec):
         return Out(ok=False, classes=classes, info={"err": e1},
                    msg="covariance of the generated displacements (A A^T from one-hot normal variates) differs from the harmonic canonical covariance: "
                        "rel %.3e (%s, T=%g K, cutoff %g THz, %d self-conjugate + %d conjugate-pair q-points, via %s)" % (e1, dist, T, cutoff, nii, nij, spec["via"]))
+    # seeded sampling: the snapshots are A z with z independent standard normal variates - recover z and look at it
+    msnap = 8
+    rd.run(T, number_of_snapshots=msnap, random_seed=int(spec["key"]) % 10007)
+    U = rd.u.reshape(msnap, -1).T  # (3n, msnap)
+    keep = np.linalg.norm(A, axis=0) > 1e-12 * max(np.abs(A).max(), 1e-300)
+    if keep.sum() >= 2:
+        Ak = A[:, keep]
+        z, *_ = np.linalg.lstsq(Ak, U, rcond=None)
+        if np.linalg.matrix_rank(Ak) == keep.sum():
+            if np.abs(Ak @ z - U).max() > 1e-8 * max(np.abs(U).max(), 1e-300):
+                return Out(ok=False, classes=classes, msg="seeded random displacements are not in the range of the linear map found with one-hot variates")
+            zr = np.round(np.abs(z), 7)
+            nuniq = len({tuple(r) for r in zr.tolist()})
+            if nuniq < len(zr):
+                return Out(ok=False, classes=classes, msg="seeded random displacements: %d of %d normal variates coincide (up to sign) in all %d snapshots - "
+                           "the variates are not independent" % (len(zr) - nuniq, len(zr), msnap))
+            N_ = z.size
+            if N_ >= 64 and (abs(z.mean()) > 6 / np.sqrt(N_) or abs(z.var() - 1) > 6 * np.sqrt(2.0 / N_)):
+                return Out(ok=False, classes=classes, msg="recovered variates of %d seeded snapshots: mean %.3f, variance %.3f over %d values - not standard normal"
+                           % (msnap, z.mean(), z.var(), N_))
     n = len(ph.supercell)
     if T > 0:
         rd.run_correlation_matrix(T)
